@@ -197,6 +197,9 @@ def _forms():
     A("np.insert(x,obj=0,values=y)", lambda x, y, o: np.insert(x, obj=0, values=y), needs="x-1d", scalar_literal_ok=True, first_must_be_quantity=True)
     A("np.searchsorted(a=x,v=y)", lambda x, y, o: np.searchsorted(a=np.sort(x), v=y), needs="x-1d", scalar_literal_ok=True, first_must_be_quantity=True)
     A("np.append(arr=x,values=y)", lambda x, y, o: np.append(arr=x, values=y))
+    A("np.diff(x,prepend=y)", lambda x, y, o: np.diff(x, prepend=y), needs="x-1d", scalar_literal_ok=True, first_must_be_quantity=True)
+    A("np.diff(x,append=y)", lambda x, y, o: np.diff(x, append=y), needs="x-1d", scalar_literal_ok=True, first_must_be_quantity=True)
+    A("np.diff(x,1,-1,y,y)", lambda x, y, o: np.diff(x, 1, -1, y, y), needs="x-1d", scalar_literal_ok=True, first_must_be_quantity=True)
     A("np.isin(element=x,test_elements=y)", lambda x, y, o: np.isin(element=x, test_elements=y))
     A("np.linspace(start=x,stop=y)", lambda x, y, o: np.linspace(start=x, stop=y, num=5), needs="same-shape")
     A("np.isclose(a=x,b=y)", lambda x, y, o: np.isclose(a=x, b=y), scalar_literal_ok=True)
@@ -325,6 +328,8 @@ def expectation(form, dx, dy, dimx, dimy):
     bare_scalar = (ky == "bare" and dy[-1] == "s") or (kx == "bare" and dx[-1] == "s")
     if form.group in ("arrayfunc", "assign") and bare_scalar and form.scalar_literal_ok:
         return "unjudged:bare Python number adopts the target unit in array-function handlers / item assignment (pinned by the test-suite)"
+    if form.name.startswith("np.diff(") and ky == "bare":
+        return "unjudged:bare prepend/append values of np.diff are fill values taken in the array's unit, as for np.pad / np.ediff1d (not claimed)"
     if form.group == "assign" and ky in ("dimless",):
         return "unjudged:a[i] = dimensionless quantity adopts the unit (pinned by the test-suite)"
     if form.group == "assign" and ky == "bare":
